@@ -1,16 +1,23 @@
 #!/bin/bash
-# usage: tools/seedmatrix.sh <seeds root> — runs every property's check on every seed; prints which checks fire
-ROOT="$(realpath "${1:-/verif/seeded}")"
+# usage: tools/seedmatrix.sh <seeds root> [workers] — runs every property's check on every seed; prints which checks fire
+ROOT="$(realpath "${1:-/verif/seeded}")"; W="${2:-6}"
 export GOFLAGS=-mod=mod GOPROXY=off GOSUMDB=off GOTOOLCHAIN=local GOWORK=off
-for sd in $(ls -d $ROOT/C*-[0-9]* $ROOT/C*/[0-9]* 2>/dev/null | sort); do
+DV=$(mktemp /tmp/dcpverif.XXXXXX); cp /verif/bin/dcpverif "$DV"; chmod +x "$DV"   # private copy: the checker may be rebuilt meanwhile
+trap 'rm -f "$DV"' EXIT
+one() {
+  sd="$1"; ROOT="$2"; DV="$3"
   D=$(mktemp -d /tmp/seedrun.XXXXXX)
   rsync -a --exclude .git /repo/ "$D/repo/"
-  (cd "$D/repo" && patch -p1 -s < "$sd/patch.diff") || { echo "$sd PATCH-FAILED"; rm -rf "$D"; continue; }
-  out=$(/verif/bin/dcpverif -prop all -repo "$D/repo" -out /verif -no-evidence 2>&1)
+  (cd "$D/repo" && patch -p1 -s < "$sd/patch.diff") || { echo "$sd PATCH-FAILED"; rm -rf "$D"; return; }
+  out=$("$DV" -prop all -repo "$D/repo" -out /verif -no-evidence 2>&1)
+  n=$(echo "$out" | grep -c " obligations, ")
   fired=$(echo "$out" | grep -oE "^VIOLATION property=C[0-9]+" | sed 's/VIOLATION property=//' | tr '\n' ' ')
   rules=$(echo "$out" | grep -E "^\s+\[(violated|undecided)\]" | sed -E 's/^\s+\[(violated|undecided)\] ([^|]+)\|.*/\2/' | sort -u | tr '\n' ' ')
   own=$(basename $sd | sed "s/-.*//"); case "$own" in [0-9]*) own=$(basename $(dirname $sd));; esac
   hit="MISSED"; echo " $fired" | grep -q " $own " && hit="caught"
+  [ "$n" -eq 20 ] || hit="CHECKER-ERROR($n)"
   echo "$(echo $sd | sed "s#$ROOT/##") own=$hit fired=[$fired] rules=[$rules]"
   rm -rf "$D"
-done
+}
+export -f one
+ls -d $ROOT/C*-[0-9]* $ROOT/C*/[0-9]* 2>/dev/null | sort | xargs -P "$W" -I{} bash -c 'one "$@"' _ {} "$ROOT" "$DV" | sort -V
